@@ -35,6 +35,7 @@ pub const DEF: PropDef = PropDef {
 pub const SUBS: &[SubDef] = &[
     SubDef { prop: "C06", name: "locality", oracle: locality },
     SubDef { prop: "C06", name: "locality_huge", oracle: locality_huge },
+    SubDef { prop: "C06", name: "locality_congruent", oracle: locality_congruent },
     SubDef { prop: "C06", name: "defrag", oracle: defrag },
     SubDef { prop: "C06", name: "locality_raw", oracle: locality_raw },
 ];
@@ -89,6 +90,9 @@ fn run(ctx: &Ctx) {
         }
         Ok(())
     });
+    // an inner length field raised by a multiple of 256 (two-byte fields) or 65536 (three-byte fields) - the value a comparison made in a
+    // narrower integer cannot tell from the true one - with at least that many bytes of valid structures behind the structure
+    ctx.run_tape("locality_congruent", locality_congruent, ctx.pick(6_000, 60_000), 400);
     ctx.run_tape("defrag", defrag, ctx.pick(48_000, 200_000), 1200);
     ctx.run_tape("locality_raw", locality_raw, ctx.pick(120_000, 400_000), 96);
 }
@@ -509,6 +513,43 @@ fn locality(t: &mut Tape, obs: &mut Obs) -> R {
         }
     }
     Ok(())
+}
+
+fn locality_congruent(t: &mut Tape, obs: &mut Obs) -> R {
+    let fams = families();
+    let fam = &fams[t.below(fams.len())];
+    let e = (fam.gen)(t);
+    let wide: Vec<&vmodel::wire::LenField> = e.lens.iter().filter(|l| l.width >= 2 && l.off + l.width <= e.buf.len()).collect();
+    if wide.is_empty() || e.buf.len() > 4000 {
+        return Ok(());
+    }
+    let lf = wide[t.below(wide.len())];
+    let unit = 1usize << (8 * (lf.width - 1));
+    let k = 1 + t.below(2);
+    let nv = lf.value + k * unit;
+    if nv >= 1usize << (8 * lf.width) {
+        return Ok(());
+    }
+    let mut b = e.buf.clone();
+    set_be(&mut b[lf.off..lf.off + lf.width], nv as u64);
+    // fields that state the same size twice (a DTLS message's length and fragment_length) are raised together half of the time
+    if t.bool() {
+        let blen = b.len();
+        for o in e.lens.iter().filter(|o| o.width == lf.width && o.value == lf.value && o.off != lf.off && o.off + o.width <= blen) {
+            set_be(&mut b[o.off..o.off + o.width], nv as u64);
+            obs.class("twin-fields-raised-together");
+        }
+    }
+    // behind it: copies of the unmodified structure (valid structures of the same kind), enough of them to hold the raised length
+    let mut x: Vec<u8> = Vec::with_capacity(k * unit + 2 * e.buf.len() + 64);
+    while x.len() < k * unit + e.buf.len() + 16 {
+        x.extend_from_slice(&e.buf);
+    }
+    obs.class(&format!("{}:width={}", fam.name, lf.width));
+    obs.sample_class(&format!("{}:{}", fam.name, lf.label), || json!({"family": fam.name, "field": lf.label, "true_value": lf.value, "written_value": nv, "suffix_bytes": x.len(), "b": hex_short(&b)}));
+    check_pair(fam, &b, &x, "congruent-length", obs)?;
+    // and the structure with its true lengths in front of the same suffix
+    check_pair(fam, &e.buf, &x, "long-valid-suffix", obs)
 }
 
 /// parameter tape: [family, size index, generator tape...]
